@@ -394,9 +394,16 @@ func runMyExecute(r *core.Run) {
 					class = "my-execute-typed-null"
 				}
 				ts[j] = tr{kind: 'k'}
-			case 1: // integer, kept
-				t := core.Pick(rd, []byte{1, 2, 3, 8})
-				vals = append(vals, rd.Bytes(myFixedWidth(int(t))))
+			case 1: // fixed-width numeric, kept: must come back with exactly the same bytes
+				t := core.Pick(rd, []byte{1, 2, 3, 8, 4, 5})
+				v := rd.Bytes(myFixedWidth(int(t)))
+				if t == 4 || t == 5 { // finite FLOAT/DOUBLE (exponent field not all ones), incl. values not representable in float32
+					v[len(v)-1] &= 0xbf
+					if rd.Chance(30) {
+						v = myFloatBytes(int(t), core.Pick(rd, []float64{3.141592653589793, 1234567.89, 1e300, 0.1, -2, 1e-310, 16777217}))
+					}
+				}
+				vals = append(vals, v)
 				types[j] = [2]byte{t, 0}
 				ts[j] = tr{kind: 'k'}
 			default: // string-like, possibly transformed
@@ -447,6 +454,18 @@ func runMyExecute(r *core.Run) {
 		}
 		r.Check(bytes.Equal(mask(out), mask(myEncodePayload(seq, wantPayload))), class, fmt.Sprintf("rewritten COM_STMT_EXECUTE is not the well-formed packet with the transformed parameters: types=%v vals=%s tr=%s got=%x want=%x", types, showRow(vals), showTrs(ts), out, myEncodePayload(seq, wantPayload)))
 	}
+}
+
+// myFloatBytes encodes a value as MySQL binary FLOAT (type 4) or DOUBLE (type 5), little endian.
+func myFloatBytes(t int, f float64) []byte {
+	if t == 4 {
+		b := make([]byte, 4)
+		binary.LittleEndian.PutUint32(b, math.Float32bits(float32(f)))
+		return b
+	}
+	b := make([]byte, 8)
+	binary.LittleEndian.PutUint64(b, math.Float64bits(f))
+	return b
 }
 
 func hasSuffix(s, suf string) bool { return len(s) >= len(suf) && s[len(s)-len(suf):] == suf }
